@@ -719,6 +719,11 @@ class Association(threading.Thread):
             self._is_paused = True
             self._reactor_checkpoint.wait()
             self._is_paused = False
+            if not self._reactor_checkpoint.is_set():
+                # A send_*() method paused the reactor just as it was waking
+                #   up and may have seen the stale `_is_paused` value: go back
+                #   to being paused rather than taking its response
+                continue
 
             # Check with the DIMSE provider to see if a completely decoded
             #   message is available
